@@ -101,7 +101,8 @@ def _run_group(harness, init, hist, cands, listeners):
     recs = []
     errors = []
     timeouts = 0
-    for c in sorted(cands, key=_call_key):
+    ordered = sorted(cands, key=_call_key)
+    for ci, c in enumerate(ordered):
         if timeouts >= 2 or TIMEOUTS[0] >= 4:      # do not spend the whole budget waiting for a hanging call
             TIMEOUTS[0] += timeouts
             timeouts = 0
@@ -152,13 +153,18 @@ def _run_group(harness, init, hist, cands, listeners):
             m1 = harness.project_mirror(reg)
             msame = (m1 == m0)
             rec["msame"] = msame
-            rec["ann"] = list(reg.mirror.ann)
+            rec["ann"] = harness.ann_records(reg, reg.mirror.ann)
             if not msame:
                 rec["mirror"] = m1
         recs.append(rec)
-        if not (same and msame):
-            reg = harness.build(init + hist, listeners)
-            if harness.project(reg) != s0:
+        if not (same and msame) and ci + 1 < len(ordered):
+            # the remaining candidates start from the same state: rebuild it.  A build whose outcome depends on
+            # the memory layout (e.g. the order in which a reader declares generated primitives) is retried.
+            for attempt in range(8):
+                reg = harness.build(init + hist, listeners)
+                if harness.project(reg) == s0:
+                    break
+            else:
                 errors.append("rebuild of %r is not deterministic" % (hist,))
     return head, recs, errors
 
@@ -196,7 +202,7 @@ def _run_chain(harness, init, hist, listeners, observe=False):
             rec["info"] = reg.last_info
         if reg.mirror:
             rec["msame"] = False
-            rec["ann"] = list(reg.mirror.ann)
+            rec["ann"] = harness.ann_records(reg, reg.mirror.ann)
             rec["mirror"] = harness.project_mirror(reg)
         recs.append(rec)
         last_step = len(recs)
@@ -319,8 +325,16 @@ def _validate_one(args):
         elif line.startswith('<<"TRACE-DONE"'):
             done.append(line)
 
+    _dbg = os.environ.get("VERIF_DEBUG_LOG")
+    if _dbg:
+        with open(_dbg, "a") as f:
+            f.write("start %s %d\n" % (path, os.getpid()))
     res = tlcrun.run(module, TRACE_CFG % ("TRUE" if strict else "FALSE"), workers=1, heap="3g",
-                     env={"TRACE_FILE": path}, on_line=on_line, timeout=3600)
+                     env={"TRACE_FILE": path}, on_line=on_line,
+                     timeout=int(os.environ.get("VERIF_VALIDATE_TIMEOUT_S", "1500")))
+    if _dbg:
+        with open(_dbg, "a") as f:
+            f.write("end %s %d fails=%d\n" % (path, os.getpid(), len(fails)))
     return {"path": path, "fails": fails, "drifts": drifts, "complete": bool(done),
             "errors": res["errors"], "tail": res.get("tail", [])[-25:], "wall_s": res["wall_s"]}
 
